@@ -25,6 +25,22 @@ def main():
     rep = core.Report("C17")
     quick = core.tier() == "quick"
     rng = random.Random(core.seed() * 7919 + 17)
+    # (A): the guards of the outcome machine (what each monitor kind supports) against the semantics and the operational models,
+    # for every formula of depth <= 2 over the whole operator set: pastification is closed (bounded future -> online fragment),
+    # a supported formula always has a value / the operational models return without error
+    import densemc
+    ax, ay = pred("ge", var("x"), const(2)), pred("lt", var("y"), const(2))
+    UNO = ["not", "next", "prev", "once", "hist", "ev", "alw", "rise", "fall", "sprev", "snext"]
+    TMO = ["evT", "alwT", "onceT", "histT"]
+    BIO = ["and", "or", "implies", "iff", "xor", "since", "until"]
+    D1 = [ax, ay] + [un(o, ax) for o in UNO] + [un(o, ax, 1, 2) for o in TMO] + [bi(o, ax, ay) for o in BIO] + [bi(o, ax, ay, 1, 2) for o in ("sinceT", "untilT")] + \
+         [pred("ge", bi("sub", var("x"), un("abs", var("y"))), const(0)), pred("le", un("neg", var("x")), const(1))]
+    FS = D1 + [un(o, q) for o in UNO for q in D1] + [un(o, q, 0, 1) for o in TMO for q in D1] + [bi(o, q, ay) for o in BIO for q in D1] + \
+         [bi(o, ax, q, 1, 2) for o in ("sinceT", "untilT") for q in D1] + [bi(o, q, ax, 0, 1) for o in ("sinceT", "untilT") for q in D1]
+    r = densemc.run_support("C17_support", FS)
+    rep.add_mc("SupportMC: PastifyClosed, DiscreteTotal, DenseTotal for %d formulas of depth <= 2 over the whole operator set" % len(FS), r)
+    if r["violated"]:
+        rep.mc_violation("SupportMC", r)
     n = 900 if quick else 20000
     dt, ct = [], []
     for i in range(n):
@@ -122,7 +138,9 @@ def main():
         vs_, gen, dist = core.validate(nm, tr, module=mod)
         rep.add_traces(tr, vs_, gen, dist, nontrivial_key=lambda c: c["kind"] + c["objs"][0]["text"] + str(c["objs"][0]["vars"]) + str(len(c["events"])))
     rep.extra["cases_by_kind"] = {k: sum(1 for c in dt + ct if c["kind"] == k) for k in ("dt_off", "dt_on", "dt_past", "ct_off", "ct_on", "ct_past")}
-    return rep.finish("traces: random formulas over the whole operator set (so that about half are unsupported by the monitor kind at hand) on "
+    return rep.finish("TLC: SupportMC - the support guards of the outcome machine are consistent with the semantics and the operational "
+                      "models (pastification closed, supported formulas total) on all formulas of depth <= 2; "
+                      "traces: random formulas over the whole operator set (so that about half are unsupported by the monitor kind at hand) on "
                       "the six monitor kinds (discrete/dense x offline/online/online-after-pastify), with one-sample traces, variables that are "
                       "declared and supplied but unused, supplied but undeclared, and inputs listed in random order; the specification's outcome "
                       "machine (ok / RTAMTException per public call, from Rtamt!CanUpdate, Past!Pastifiable, Dense!DenseOK, TraceCt!OnlineCtOK) is "
